@@ -15,19 +15,14 @@ mod util;
 
 use std::io::{self, BufRead, Write};
 
-fn fnv(t: &str) -> u64 {
-    t.bytes().fold(0xcbf29ce484222325u64, |h, b| (h ^ b as u64).wrapping_mul(0x100000001b3))
-}
-
 fn main() {
     let engine = std::env::args().nth(1).unwrap_or_default();
     // panics are reported through catch_unwind; silence the default hook
     std::panic::set_hook(Box::new(|_| {}));
     let stdin = io::stdin();
     let stdout = io::stdout();
-    // QV_FRESH: 0 = every case on the main thread, 2 = every case on a thread of its own, otherwise mixed
+    // QV_FRESH: 0 = every case on the main thread only, 2 = on a thread of its own only, 1 (default) = both
     let fresh_mode: u8 = std::env::var("QV_FRESH").ok().and_then(|v| v.parse().ok()).unwrap_or(1);
-    let seed_mix = fnv(&std::env::var("VERIF_SEED").unwrap_or_default());
     for line in stdin.lock().lines() {
         let line = line.expect("stdin");
         let line = line.trim();
@@ -43,10 +38,9 @@ fn main() {
             o.flush().unwrap();
         }
         // State that outlives a call (thread-local caches, counters, lazily built tables) must not change any
-        // result: about half of the cases -- chosen by a hash of the case id and VERIF_SEED -- run on a thread of
-        // their own, where every such state is in its initial condition; the others share the main thread and
-        // see whatever the cases before them left behind.  Both kinds are compared with the model alike.
-        let fresh = fresh_mode != 0 && (fresh_mode == 2 || (fnv(&id) ^ seed_mix) & 0x100 != 0) && engine != "conc";
+        // result.  Every case runs on the shared main thread, where it sees whatever the cases before it left
+        // behind, and then once more on a thread of its own, where all such state is in its initial condition; the
+        // two payloads must be identical.  When they are not, the second one is reported on an `ALT` line.
         let dispatch = |engine: &str, toks: &[&str]| match engine {
             "ops" => ops::run(toks),
             "bits" => bits::run(toks),
@@ -56,10 +50,11 @@ fn main() {
             "sampler" => sampler::run(toks),
             other => format!("ERR unknown-engine {}", other),
         };
-        let payload = if fresh {
-            let eng = engine.clone();
+        let on_fresh_thread = |engine: &str, toks: &[&str]| {
+            let eng = engine.to_string();
             let owned: Vec<String> = toks.iter().map(|s| s.to_string()).collect();
             let h = std::thread::Builder::new().stack_size(8 << 20).spawn(move || {
+                qasm::TWIN.with(|t| t.set(true));
                 let toks: Vec<&str> = owned.iter().map(|s| s.as_str()).collect();
                 dispatch(&eng, &toks)
             }).expect("spawn");
@@ -67,12 +62,28 @@ fn main() {
                 Ok(s) => s,
                 Err(e) => format!("PANIC {}", util::panic_class(&e)),
             }
+        };
+        let twin = fresh_mode == 1 && engine != "conc" && engine != "sampler"
+            && !toks.iter().any(|t| *t == "freq" || *t == "seqfreq" || *t == "samplestats")
+            // the draws of rayon workers are not reproducible from the case's seed: no repetition for threaded registers
+            && !(engine == "reg" && toks.iter().any(|t| *t == "threads"));
+        let payload = if fresh_mode == 2 {
+            on_fresh_thread(&engine, &toks)
         } else {
             match std::panic::catch_unwind(|| dispatch(&engine, &toks)) {
                 Ok(s) => s,
                 Err(e) => format!("PANIC {}", util::panic_class(&e)),
             }
         };
+        if twin {
+            let again = on_fresh_thread(&engine, &toks);
+            // (the note about the re-used simulator belongs to the shared run only)
+            let core = |p: &str| -> String { match p.find(" reuse ") { Some(k) => p[..k].to_string(), None => p.to_string() } };
+            if core(&again) != core(&payload) {
+                let mut o = stdout.lock();
+                writeln!(o, "ALT {} {}", id, again).unwrap();
+            }
+        }
         let mut o = stdout.lock();
         writeln!(o, "RES {} {}", id, payload).unwrap();
         o.flush().unwrap();
